@@ -8,7 +8,7 @@ A case is a SCRIPT (JSON-able list of ops) run against one GPyRegression instanc
   ['sampling', flag]                       .is_sampling = flag
   ['predict', q]                           .predict(q) and .predictive_gradients(q) must equal GPy's own answers for the CURRENT _gp
                                            (reference: model._gp.predict / predictive_gradients called directly)
-  ['posterior', h, queries]                BolfiPosterior(model, threshold=h, prior=P): logpdf = log Phi((h-m)/sqrt(v)) + log prior inside the
+  ['posterior', h, queries]                BolfiPosterior(model, threshold=h, prior=P): .threshold == h (h = 0 and 0.0 included); logpdf = log Phi((h-m)/sqrt(v)) + log prior inside the
                                            bounds (m, v from GPy directly), -inf outside, closed on the boundary, answer shapes;
                                            gradient_logpdf vs central difference of logpdf at interior points
 Oracles are independent of elfi's fast path.  `shim=True` runs the script with the module-level name `float` of gpy_regression.py bound
@@ -46,6 +46,10 @@ class Prior:
         nd, r = self._rows(x)
         v = np.sum(-0.5 * ((r - self.loc) / self.scale) ** 2 - math.log(self.scale * math.sqrt(2 * math.pi)), axis=1)
         return v[0] if (nd == 0 or (nd == 1 and self.dim > 1)) else v
+
+    def rvs(self, size=None, random_state=None):
+        rs = random_state or np.random
+        return self.loc + self.scale * rs.randn(size or 1, self.dim)
 
     def gradient_logpdf(self, x):
         nd, r = self._rows(x)
@@ -103,7 +107,13 @@ def _expected_shape(q, dim):
 def _check_posterior(post_mod, model, h, queries):
     dim = model.input_dim
     prior = Prior(dim)
-    post = post_mod.BolfiPosterior(model, threshold=h, prior=prior)
+    post = post_mod.BolfiPosterior(model, threshold=h, prior=prior, n_inits=2, max_opt_iters=20)
+    try:
+        same = float(post.threshold) == float(h)
+    except Exception:
+        same = False
+    if not same:
+        raise Failure('c10:threshold-not-the-given-one', 'BolfiPosterior(model, threshold=%r): the posterior uses threshold %r' % (h, post.threshold))
     lo = np.array([b[0] for b in model.bounds], dtype=float)
     hi = np.array([b[1] for b in model.bounds], dtype=float)
     for q in queries:
@@ -284,6 +294,8 @@ def make_script(rs, dim, kernel=None):
     q = pts(1)
     script.append(['predict', q.tolist()])
     script.append(['posterior', h, _queries(rs, dim, bounds, False)])
+    script.append(['posterior', 0, _queries(rs, dim, bounds, False)[:2]])          # threshold exactly zero (log 1 on a log discrepancy), int and float
+    script.append(['posterior', 0.0, _queries(rs, dim, bounds, False)[:2]])
     script += [['sampling', True], ['predict', q.tolist()], ['predict', pts(1).tolist()], ['posterior', h, _queries(rs, dim, bounds, True)]]
     for _ in range(int(rs.randint(1, 4))):
         script.append(['sampling', False])
@@ -310,6 +322,8 @@ def canonical(kind, dim=2, seed=0):
     X = rs.rand(5, dim)
     Y = (np.sum((X - 0.3) ** 2, axis=1) + 1.0)
     q = rs.rand(1, dim).tolist()
+    if kind == 'threshold0':
+        return [['new', dim, bounds, 5], ['update', X.tolist(), Y.tolist(), False], ['posterior', 0, [q]], ['posterior', 0.0, [q]], ['posterior', 0.5, [q]]]
     s = [['new', dim, bounds, 5], ['update', X.tolist(), Y.tolist(), False], ['sampling', True], ['predict', q]]
     if kind == 'enter':
         return s
